@@ -505,6 +505,7 @@ func (c *Ctx) Finish(meta propMeta) int {
 	}
 	// "extra" keys that do not belong into the coverage object
 	delete(cov, "mutexNames")
+	delete(cov, "astTypes")
 	seed := 0
 	fmt.Sscanf(os.Getenv("VERIF_SEED"), "%d", &seed)
 	ev := evidence{PropertyID: c.Prop, Tier: c.Tier, Seed: seed, Level: "other", Coverage: cov,
